@@ -1,5 +1,6 @@
 import Proofs.Hyperslab
 import Proofs.IterData
 import Proofs.IterDataSim
+import Proofs.Seq
 import Proofs.Slice
 import Proofs.SliceTuple
